@@ -238,11 +238,18 @@ func poke() {
 	}
 }
 
+// napHook runs in every round of a wait: it keeps the handshake timers of fresh nodes from firing
+// however long an op takes.
+var napHook func()
+
 // until is hx.Until that also wakes on news from a reader goroutine.
 func until(budget time.Duration, cond func() bool) bool {
 	for budget > 0 {
 		if cond() {
 			return true
+		}
+		if napHook != nil {
+			napHook()
 		}
 		t0 := time.Now()
 		select {
@@ -459,6 +466,7 @@ func newWorld(withTx bool) *world {
 	w.cfg = &bitcoin_reader.Config{Network: bitcoin.MainNet, Timeout: config.NewDuration(time.Hour),
 		TxRequestCount: 10000, DesiredNodeCount: 50, ScanCount: 100}
 	w.mgr = bitcoin_reader.NewNodeManager("/brv:0.1/", w.cfg, w.hdr, &peerSpy{})
+	napHook = w.tickle
 	if withTx {
 		w.txm = bitcoin_reader.NewTxManager(txTimeout)
 		w.mgr.SetTxManager(w.txm)
